@@ -1,7 +1,7 @@
 """Contracts for dimarray/core/bases.py"""
 from dverif.contract_base import Contract
 from dverif.stubs import stub_of
-from .common import absent, assume_order, unique, first_occurrence, in_slice
+from .common import absent, assume_order, unique, first_occurrence, in_slice, selector, slice_count
 from . import indexing as ix
 
 
@@ -147,3 +147,803 @@ class AxisLoc(Contract):
                 yield c
         elif case["val"] == "tollist" and case["len"]:
             yield "first-position-zero", result[0] == 0
+
+
+# --------------------------------------------------------------------------
+# AxisLoc as a callee contract (used while verifying _get_indices)
+# --------------------------------------------------------------------------
+
+def _axisloc_bind(self_axis, val, tol=None, issorted=False, mode="raise"):
+    from .common import order_of
+    if issorted or mode != "raise":
+        raise NotImplementedError("issorted / mode")
+    values = self_axis.values
+    kind = values.dtype.kind
+    order = order_of(values)
+    if order is None:
+        raise NotImplementedError("axis without an order tag")
+    tolv = tol or getattr(self_axis, "_tol", None)
+    case = {"name": "bound", "kind": kind, "order": order, "tol": tolv is not None}
+    env = {"values": values, "axis": self_axis, "tol": tolv, "val": val}
+    if type(val) is slice:
+        if order in ("inc", "dec") and kind in "fi":
+            case.update(mode="bbox", dir=order)
+        elif kind == "O" and order == "unique":
+            case.update(mode="strict", dir="shuffled")
+        else:
+            raise NotImplementedError("slice on a %s axis tagged %s" % (kind, order))
+        if val.step not in ix.STEPS:
+            raise NotImplementedError("step")
+        case.update(val="slice", step=val.step, has_start=val.start is not None, has_stop=val.stop is not None)
+        env.update(start=val.start, stop=val.stop, step=val.step)
+    elif hasattr(val, "dtype") and getattr(val, "ndim", 0) == 1:
+        case["val"] = "mask" if val.dtype.kind == "b" else "array"
+        if case["val"] == "array" and tolv is not None:
+            raise NotImplementedError("array with tolerance")
+    elif isinstance(val, (list, tuple)):
+        raise NotImplementedError("python list")
+    elif val is None:
+        raise NotImplementedError("None label")
+    else:
+        case["val"] = "scalar"
+    return case, env
+
+
+def _axisloc_fresh(self, S, case, env):
+    f = env["_fresh"]
+    if case["val"] == "scalar":
+        return S.fresh_int(f + ".pos")
+    if case["val"] == "array":
+        return S.fresh_array1d(f + ".pos", "I", S.n(env["val"]))
+    if case["val"] == "mask":
+        return env["val"]
+    if case["val"] == "slice":
+        return slice(S.fresh_int(f + ".istart"), S.fresh_int(f + ".istop"), case["step"])
+    raise NotImplementedError(case["val"])
+
+
+AxisLoc.bind = staticmethod(_axisloc_bind)
+AxisLoc.fresh_result = _axisloc_fresh
+
+
+def axisloc_requires(self, S, case, env):
+    v = env["values"]
+    from .common import strictly_increasing, strictly_decreasing
+    if case["order"] == "inc":
+        yield "increasing", strictly_increasing(S, v)
+    elif case["order"] == "dec":
+        yield "decreasing", S.land(strictly_decreasing(S, v), S.n(v) >= 2)
+    elif case["order"] == "unique":
+        yield "unique", unique(S, v)
+
+
+AxisLoc.requires = axisloc_requires
+
+
+# --------------------------------------------------------------------------
+# symbolic DimArrays for object-level contracts
+# --------------------------------------------------------------------------
+
+DIM_KINDS = ("f", "O", "i", "f")        # label kind of dimension 0, 1, 2, 3
+
+
+def make_dimarray(S, rank, orders=None, prefix="", data_kind="f", kinds=None, attrs=None):
+    """a well-formed DimArray of the given rank with symbolic extents, labels and data"""
+    axes = []
+    labels = []
+    for d in range(rank):
+        kind = (kinds or DIM_KINDS)[d]
+        order = (orders or {}).get(d, "unique")
+        L = S.array1d("%slab%d" % (prefix, d), kind)
+        assume_order(S, L, order)
+        labels.append(L)
+        axes.append(S.da.Axis(L, "%sx%d" % (prefix, d)))
+    data = S.arraynd(prefix + "data", data_kind, tuple(S.n(L) for L in labels))
+    arr = S.da.DimArray(data, axes=axes)
+    if attrs:
+        arr.attrs.update(attrs)
+    return arr, labels, data
+
+
+INDEX_KINDS = ("full", "scalar", "array", "mask", "slice", "slice-rev")
+TOL_KINDS = ("scalar-tol",)      # a scalar label looked up with tol= (numeric axes: nearest within tol)
+
+
+def make_index(S, kind, labels_d, lkind, d, position=False, tol=None):
+    """-> (index object, AxisLoc-case, AxisLoc-env) for one dimension"""
+    n = S.n(labels_d)
+    nm = "ix%d" % d
+    lk = "f" if lkind == "i" else lkind
+    if kind == "full":
+        return slice(None), None, None
+    if position:
+        if kind == "scalar":
+            p = S.int(nm)
+            return p, {"val": "scalar"}, {"val": p}
+        if kind == "array":
+            q = S.array1d(nm, "I")
+            return q, {"val": "array"}, {"val": q}
+        if kind == "mask":
+            m = S.array1d(nm, "b", n=n)
+            return m, {"val": "mask"}, {"val": m}
+        if kind in ("slice", "slice-rev"):
+            a, b = S.int(nm + ".start"), S.int(nm + ".stop")
+            step = None if kind == "slice" else -1
+            return slice(a, b, step), {"val": "slice", "step": step}, {"start": a, "stop": b, "step": step}
+    order = {"slice": "inc", "slice-rev": "inc"}.get(kind, "unique") if lkind != "O" else "unique"
+    case = {"name": "dim%d" % d, "kind": lkind, "order": order, "tol": False}
+    env = {"values": labels_d, "tol": None}
+    if kind == "scalar-tol":
+        env["val"] = S.label(nm, lk)
+        env["tol"] = tol
+        case.update(val="scalar", tol=True)
+    elif kind == "scalar":
+        env["val"] = S.label(nm, lk)
+        case["val"] = "scalar"
+    elif kind == "array":
+        env["val"] = S.array1d(nm, lkind)
+        case["val"] = "array"
+    elif kind == "mask":
+        env["val"] = S.array1d(nm, "b", n=n)
+        case["val"] = "mask"
+    else:
+        step = None if kind == "slice" else -1
+        if lkind == "O":
+            a, b = S.strlabel(nm + ".start"), S.strlabel(nm + ".stop")
+            case.update(mode="strict", dir="shuffled")
+        else:
+            a, b = S.real(nm + ".start"), S.real(nm + ".stop")
+            case.update(mode="bbox", dir="inc")
+        env.update(start=a, stop=b, step=step, val=slice(a, b, step))
+        case.update(val="slice", step=step, has_start=True, has_stop=True)
+    return env["val"], case, env
+
+
+def index_orders(kinds_per_dim):
+    """axis order needed by each dimension's index kind (label slices need a monotonic numeric axis)"""
+    out = {}
+    for d, k in enumerate(kinds_per_dim):
+        if k in ("slice", "slice-rev") and DIM_KINDS[d] != "O":
+            out[d] = "inc"
+    return out
+
+
+class GetIndices(Contract):
+    """AbstractHasAxes._get_indices(indices, axis, indexing, tol): an N-d tuple of per-dimension position
+    indexers.  Entry d is what AxisLoc specifies for the index addressed to dimension d (by tuple position,
+    by name, by integer key, or through axis=), full slices for unaddressed dimensions, and the index
+    itself in position mode, for boolean masks and for full slices.  [C01, C02, C03]"""
+    target = "dimarray.core.bases:AbstractHasAxes._get_indices"
+    props = ("C01", "C02", "C03")
+    uses = (stub_of(AxisLoc),)
+    inlined = ("expanded_indexer (own contract: ExpandedIndexer)", "AbstractHasAxes.dims", "get_option")
+
+    def cases(self, tier):
+        import itertools
+        maxrank = 2 if tier == "quick" else 3
+        for rank in range(0, maxrank + 1):
+            for kinds in itertools.product(INDEX_KINDS, repeat=rank):
+                nonfull = [d for d, k in enumerate(kinds) if k != "full"]
+                spellings = ["tuple", "dict-name", "dict-pos"]
+                if len(nonfull) == 1:
+                    spellings += ["axis-name", "axis-pos"]
+                if rank >= 1 and all(k == "full" for k in kinds[1:]) and kinds[0] != "full":
+                    spellings += ["bare"]
+                for sp in spellings:
+                    for mode in ("label", "position"):
+                        if mode == "position" and sp not in ("tuple", "dict-name"):
+                            continue
+                        if sp in ("axis-name", "axis-pos") and nonfull == [0]:
+                            continue      # axis=0 / axis='x0' with the first dimension is the default spelling
+                        yield {"name": "r%d-%s-%s-%s" % (rank, "+".join(kinds) or "none", sp, mode), "rank": rank,
+                               "kinds": list(kinds), "spelling": sp, "indexing": mode}
+        for rank in (1, 2):
+            for d in range(rank):
+                kinds = ["full"] * rank
+                kinds[d] = "scalar-tol"
+                for sp in ("tuple", "dict-name"):
+                    yield {"name": "r%d-%s-%s-label-tol" % (rank, "+".join(kinds), sp), "rank": rank, "kinds": kinds,
+                           "spelling": sp, "indexing": "label", "tol": True}
+        # where the indexing mode comes from: explicit argument, else the array's own mode, else the global option
+        for arg, own, opt, eff in ((None, None, "label", "label"), (None, None, "position", "position"),
+                                   (None, "position", "label", "position"), (None, "label", "position", "label"),
+                                   ("label", "position", "position", "label"), ("position", "label", "label", "position")):
+            for kind in ("scalar", "array"):
+                yield {"name": "r1-%s-config-arg_%s-own_%s-option_%s" % (kind, arg, own, opt), "rank": 1, "kinds": [kind],
+                       "spelling": "tuple", "indexing": eff, "config": [arg, own, opt]}
+        yield {"name": "r2-dict-unknown-dimension", "rank": 2, "kinds": ["full", "full"], "spelling": "dict-unknown", "indexing": "label"}
+        yield {"name": "r1-too-many-indices", "rank": 1, "kinds": ["scalar"], "spelling": "too-many", "indexing": "label"}
+
+    def bound_lengths(self, case):
+        names = ["lab%d.n" % d for d in range(case["rank"])]
+        names += ["ix%d.n" % d for d, k in enumerate(case["kinds"]) if k == "array"]
+        return names
+
+    def setup(self, S, case):
+        rank = case["rank"]
+        pos = case["indexing"] == "position"
+        arr, labels, data = make_dimarray(S, rank, index_orders(case["kinds"]) if not pos else None)
+        idx, subs = [], []
+        tol = S.real("tol") if case.get("tol") else None
+        for d, k in enumerate(case["kinds"]):
+            i, sc, se = make_index(S, k, labels[d], DIM_KINDS[d], d, position=pos, tol=tol)
+            idx.append(i)
+            subs.append((sc, se))
+        sp = case["spelling"]
+        kwargs = {"indexing": case["indexing"]}
+        if case.get("config"):
+            kwargs["indexing"] = case["config"][0]
+            arr._indexing = case["config"][1]
+        if tol is not None:
+            kwargs["tol"] = tol
+        nonfull = [d for d, k in enumerate(case["kinds"]) if k != "full"]
+        if sp == "tuple":
+            indices = tuple(idx)
+        elif sp == "bare":
+            indices = idx[0]
+        elif sp == "dict-name":
+            indices = {"x%d" % d: idx[d] for d in nonfull}
+        elif sp == "dict-pos":
+            indices = {d: idx[d] for d in nonfull}
+        elif sp in ("axis-name", "axis-pos"):
+            d = nonfull[0]
+            indices = idx[d]
+            kwargs["axis"] = "x%d" % d if sp == "axis-name" else d
+        elif sp == "dict-unknown":
+            indices = {"nosuchdim": 0}
+        elif sp == "too-many":
+            indices = (idx[0], idx[0])
+        return {"arr": arr, "labels": labels, "idx": idx, "subs": subs, "indices": indices, "kwargs": kwargs}
+
+    def call(self, fn, env):
+        cfg = env["case"].get("config")
+        if not cfg:
+            return env["arr"]._get_indices(env["indices"], **env["kwargs"])
+        import dimarray.config as config
+        old = config.rcParams["indexing.by"]
+        config.rcParams["indexing.by"] = cfg[2]
+        try:
+            return env["arr"]._get_indices(env["indices"], **env["kwargs"])
+        finally:
+            config.rcParams["indexing.by"] = old
+
+    def raises(self, S, case, env):
+        if case["spelling"] == "dict-unknown":
+            return {ValueError: True}
+        if case["spelling"] == "too-many":
+            return {IndexError: True}
+        if case["indexing"] == "position":
+            return {}
+        al = AxisLoc()
+        conds = {}
+        for sc, se in env["subs"]:
+            if sc is None or sc["val"] == "mask":
+                continue
+            for E, c in al.raises(S, sc, se).items():
+                conds.setdefault(E, []).append(c)
+        return {E: S.lor(*cs) for E, cs in conds.items()} or {IndexError: False}
+
+    def post(self, S, case, env, result):
+        rank = case["rank"]
+        yield "tuple-of-length-ndim", isinstance(result, tuple) and len(result) == rank
+        al = AxisLoc()
+        for d in range(rank):
+            sc, se = env["subs"][d]
+            r = result[d]
+            if sc is None:
+                yield "dim%d:unaddressed-dimension-gets-full-slice" % d, isinstance(r, slice) and r == slice(None)
+            elif case["indexing"] == "position" or sc["val"] == "mask":
+                yield "dim%d:index-passed-through" % d, (r is env["idx"][d]) or (isinstance(r, slice) and r == env["idx"][d])
+            else:
+                for cl in al.post(S, sc, se, r):
+                    yield ("dim%d:%s" % (d, cl[0]), cl[1])
+
+    def canaries(self, S, case, env, result):
+        yield "one-entry-too-many", len(result) == case["rank"] + 1
+
+
+def _getindices_bind(self_arr, indices, axis=0, indexing=None, tol=None, keepdims=False):
+    """call-site binding for the stub: tuple / bare spelling only (other spellings are proved equivalent
+    by GetIndices itself)."""
+    if keepdims or axis not in (0, None):
+        raise NotImplementedError("keepdims / axis=")
+    if isinstance(indices, dict):
+        raise NotImplementedError("dict spelling at a stubbed call site")
+    if not isinstance(indices, tuple):
+        indices = (indices,)
+    if any(i is Ellipsis for i in indices):
+        raise NotImplementedError("Ellipsis")
+    rank = len(self_arr.axes)
+    if len(indices) > rank:
+        raise NotImplementedError("too many indices")
+    indices = tuple(indices) + (slice(None),) * (rank - len(indices))
+    mode = indexing or getattr(self_arr, "_indexing", None) or "label"
+    subs, idx = [], []
+    if tol is None:
+        tol = getattr(self_arr, "_tol", None)
+    from dverif import symnp
+    for d, i in enumerate(indices):
+        if isinstance(i, list):
+            i = symnp.asarray(i)
+        idx.append(i)
+        if type(i) is slice and i == slice(None):
+            subs.append((None, None))
+        elif mode == "position" or (hasattr(i, "dtype") and i.dtype.kind == "b" and getattr(i, "ndim", 0) == 1):
+            subs.append(({"val": "mask" if hasattr(i, "dtype") and i.dtype.kind == "b" else "position"}, {"val": i}))
+        else:
+            sc, se = _axisloc_bind(self_arr.axes[d], i, tol=tol)
+            subs.append((sc, se))
+    case = {"name": "bound", "rank": rank, "kinds": None, "spelling": "tuple", "indexing": mode}
+    env = {"arr": self_arr, "labels": [ax.values for ax in self_arr.axes], "idx": idx, "subs": subs,
+           "indices": indices, "kwargs": {}}
+    return case, env
+
+
+def _getindices_fresh(self, S, case, env):
+    out = []
+    al = AxisLoc()
+    for d, (sc, se) in enumerate(env["subs"]):
+        if sc is None:
+            out.append(slice(None))
+        elif case["indexing"] == "position" or sc["val"] in ("mask", "position"):
+            out.append(env["idx"][d])
+        else:
+            e = dict(se, _fresh="%s.dim%d" % (env["_fresh"], d))
+            out.append(al.fresh_result(S, sc, e))
+    return tuple(out)
+
+
+def _getindices_requires(self, S, case, env):
+    al = AxisLoc()
+    for d, (sc, se) in enumerate(env["subs"]):
+        if sc is None or "order" not in sc:
+            continue
+        for nm, f in al.requires(S, sc, se):
+            yield "dim%d:%s" % (d, nm), f
+
+
+GetIndices.bind = staticmethod(_getindices_bind)
+GetIndices.fresh_result = _getindices_fresh
+GetIndices.requires = _getindices_requires
+
+
+class GetItem(Contract):
+    """AbstractDimArray._getitem (= DimArray.__getitem__ / take): orthogonal selection.  With `pos` the
+    position tuple that _get_indices returns for the same arguments, the result is the array whose
+    dimension d (kept unless pos[d] is a scalar) has labels L_d[src_d(k)] and whose cell (k_1..k_r) is the
+    input cell (src_1(k_1) ..), where src_d enumerates what pos[d] selects on an axis of that length
+    exactly as NumPy does (slice arithmetic, listed positions in the given order incl. repeats, true
+    positions of a mask in increasing order).  A scalar is returned when every dimension is dropped.
+    Metadata is copied.  In label mode the labels of list-indexed dimensions are the requested labels.
+    [C01, C02 (N-d combination, position slices), C16 (metadata carried by indexing)]"""
+    target = "dimarray.core.bases:AbstractDimArray._getitem"
+    props = ("C01", "C02", "C16")
+    uses = (stub_of(GetIndices),)
+    inlined = ("_getaxes_ortho", "Axis.__getitem__", "_getvalues_ortho", "orthogonal_indexer", "canonicalize_indexer",
+               "_constructor", "DimArray.__init__", "Axes._init", "_is_boolean_index_nd")
+    max_paths = 600
+
+    def cases(self, tier):
+        import itertools
+        maxrank = 2 if tier == "quick" else 3
+        for rank in range(0, maxrank + 1):
+            for kinds in itertools.product(INDEX_KINDS, repeat=rank):
+                for mode in ("label", "position"):
+                    yield {"name": "r%d-%s-%s" % (rank, "+".join(kinds) or "none", mode), "rank": rank,
+                           "kinds": list(kinds), "spelling": "tuple", "indexing": mode}
+        if tier == "quick":
+            for kinds in (("array", "scalar", "mask"), ("slice", "array", "full"), ("scalar", "full", "array"),
+                          ("mask", "slice-rev", "scalar"), ("scalar", "scalar", "scalar")):
+                yield {"name": "r3-%s-label" % "+".join(kinds), "rank": 3, "kinds": list(kinds), "spelling": "tuple", "indexing": "label"}
+
+    def bound_lengths(self, case):
+        names = ["lab%d.n" % d for d in range(case["rank"])]
+        names += ["ix%d.n" % d for d, k in enumerate(case["kinds"]) if k == "array"]
+        return names
+
+    def setup(self, S, case):
+        env = GetIndices().setup(S, case)
+        env["arr"].attrs["units"] = "K"
+        env["arr"].attrs["history"] = ["created"]
+        env["data"] = env["arr"].values
+        return env
+
+    def call(self, fn, env):
+        return env["arr"]._getitem(env["indices"], **env["kwargs"])
+
+    def raises(self, S, case, env):
+        r = GetIndices().raises(S, case, env)
+        if case["indexing"] == "position":
+            conds = []
+            for d, k in enumerate(case["kinds"]):
+                n = S.n(env["labels"][d])
+                i = env["idx"][d]
+                if k == "scalar":
+                    conds.append(S.lor(i < -n, i >= n))
+                elif k == "array":
+                    conds.append(S.exists(0, S.n(i), lambda j: S.lor(S.at(i, j) < -n, S.at(i, j) >= n)))
+            return {IndexError: S.lor(*conds)}
+        return r
+
+    def _positions(self, S, env):
+        calls = S.calls("GetIndices")
+        if calls:
+            return calls[-1][3]
+        return env["arr"]._get_indices(env["indices"], **env["kwargs"])
+
+    def post(self, S, case, env, result):
+        arr, labels, data = env["arr"], env["labels"], env["data"]
+        rank = case["rank"]
+        pos = self._positions(S, env)
+        sels = [selector(S, S.n(labels[d]), pos[d]) for d in range(rank)]
+        kept = [d for d in range(rank) if sels[d][0] is not None]
+
+        def src(ks):
+            it = iter(ks)
+            return [sels[d][1](next(it)) if d in kept else sels[d][1]() for d in range(rank)]
+
+        if not kept:
+            yield "scalar-result-is-the-addressed-cell", S.land(S.lnot(S.is_dimarray(result)), result == S.at(data, *src(())))
+            return
+        yield "is-dimarray", S.is_dimarray(result)
+        yield "dims-are-the-kept-dimensions-in-order", tuple(result.dims) == tuple("x%d" % d for d in kept)
+        rv = result.values
+        yield "one-axis-per-array-dimension", len(S.shape(rv)) == len(kept) and len(result.axes) == len(kept)
+        for j, d in enumerate(kept):
+            Lr = result.axes[j].values
+            cnt, sd = sels[d]
+            yield "dim%d:extent" % d, S.land(S.n(Lr) == cnt, S.shape(rv)[j] == cnt)
+            yield "dim%d:labels-travel-with-the-selection" % d, S.forall(0, cnt, lambda k: S.at(Lr, k) == S.at(labels[d], sd(k)))
+            if case["indexing"] == "label" and case["kinds"][d] == "array":
+                q = env["idx"][d]
+                yield "dim%d:labels-are-the-requested-labels-in-order" % d, S.land(
+                    S.n(Lr) == S.n(q), S.forall(0, S.n(q), lambda k: S.at(Lr, k) == S.at(q, k)))
+        shape = [sels[d][0] for d in kept]
+        yield "cells", S.forall_nd(shape, lambda *ks: S.at(rv, *ks) == S.at(data, *src(ks)))
+        if case["indexing"] == "label":
+            # the headline statement: each selected cell is the one stored at the requested label coordinates
+            for d, k in enumerate(case["kinds"]):
+                if k == "scalar":
+                    yield "dim%d:scalar-label-addresses-its-own-position" % d, S.at(labels[d], sels[d][1]()) == env["idx"][d]
+        yield "metadata-copied", S.land(dict(result.attrs) == dict(arr.attrs), result.attrs is not arr.attrs)
+        yield "operand-untouched", S.land(arr.values is data, tuple(arr.dims) == tuple("x%d" % d for d in range(rank)),
+                                          *[arr.axes[d].values is labels[d] for d in range(rank)])
+
+    def canaries(self, S, case, env, result):
+        if S.is_dimarray(result):
+            yield "result-drops-metadata", len(result.attrs) == 0
+        else:
+            if case["rank"]:
+                yield "scalar-is-always-cell-zero", result == S.at(env["data"], *([0] * case["rank"]))
+            else:
+                yield "scalar-is-never-the-cell", result != S.at(env["data"])
+
+
+class _Recorder(object):
+    def __init__(self):
+        self.calls = []
+        self.token = object()
+
+    def __call__(self, *args, **kwargs):
+        self.calls.append((args, kwargs))
+        return self.token
+
+
+class Accessors(Contract):
+    """.loc / .iloc / .ix / .nloc / .sel / .isel / take / a[...] are plumbing onto _getitem (reads) and
+    _setitem (writes): each passes the index object through untouched together with exactly the documented
+    indexing mode and tolerance.  The functions are loop- and branch-free on their arguments, so one
+    execution with an opaque index object per configuration is a complete case analysis.  [C01, C03]"""
+    target = "dimarray.core.bases:AbstractHasAxes.loc"
+    props = ("C01", "C03")
+
+    TABLE = {
+        # accessor: (indexing, tol)
+        "loc": ("label", None), "iloc": ("position", None), "nloc": ("label", float("inf")),
+        "sel": ("label", None), "isel": ("position", None),
+    }
+
+    def cases(self, tier):
+        for acc in ("loc", "iloc", "nloc", "sel", "isel", "ix", "take", "getitem", "put", "setitem"):
+            for own in (None, "label", "position"):
+                for write in ((False, True) if acc in ("loc", "iloc", "nloc", "ix") else (False,)):
+                    yield {"name": "%s-own_%s-%s" % (acc, own, "write" if write else "read"), "acc": acc, "own": own, "write": write}
+
+    def setup(self, S, case):
+        import numpy as np
+        arr = S.da.DimArray(S.concrete_array([[1.0, 2.0], [3.0, 4.0]]), axes=[("x0", S.concrete_array([10.0, 20.0])), ("x1", S.concrete_array([1.0, 2.0]))])
+        arr._indexing = case["own"]
+        return {"arr": arr, "idx": _Opaque(), "val": _Opaque()}
+
+    def call(self, fn, env):
+        arr, case = env["arr"], env["case"]
+        cls = type(arr)
+        get, put = _Recorder(), _Recorder()
+        saved = (cls.__dict__.get("_getitem"), cls.__dict__.get("_setitem"))
+        base = cls.__mro__[[k.__name__ for k in cls.__mro__].index("AbstractDimArray")]
+        old = (base._getitem, base._setitem, base.__getitem__, base.__setitem__)
+        base._getitem = lambda self, *a, **k: get(self, *a, **k)
+        base._setitem = lambda self, *a, **k: put(self, *a, **k)
+        base.__getitem__ = base._getitem
+        base.__setitem__ = base._setitem
+        try:
+            acc = case["acc"]
+            if acc in ("sel", "isel"):
+                out = getattr(arr, acc)(x0=env["idx"])
+            elif acc == "take":
+                out = arr.take(env["idx"])
+            elif acc == "put":
+                out = arr.put(env["idx"], env["val"])
+            elif acc == "getitem":
+                out = arr[env["idx"]]
+            elif acc == "setitem":
+                arr[env["idx"]] = env["val"]
+                out = None
+            elif case["write"]:
+                getattr(arr, acc)[env["idx"]] = env["val"]
+                out = None
+            else:
+                out = getattr(arr, acc)[env["idx"]]
+        finally:
+            base._getitem, base._setitem, base.__getitem__, base.__setitem__ = old
+        return {"out": out, "get": get, "put": put}
+
+    def setup_case(self, case):
+        return case
+
+    def post(self, S, case, env, result):
+        get, put, arr = result["get"], result["put"], env["arr"]
+        acc = case["acc"]
+        writes = case["write"] or acc in ("put", "setitem")
+        rec = put if writes else get
+        yield "exactly-one-call-on-the-right-method", len(rec.calls) == 1 and len((get if writes else put).calls) == 0
+        if len(rec.calls) != 1:
+            return
+        args, kw = rec.calls[0]
+        yield "on-the-same-array", args[0] is arr
+        allargs = dict(kw)
+        names = ["indices", "values"] if writes else ["indices"]
+        for nm, a in zip(names, args[1:]):
+            allargs[nm] = a
+        if acc in ("sel", "isel"):
+            yield "index-passed-through", isinstance(allargs.get("indices"), dict) and list(allargs["indices"].items()) == [("x0", env["idx"])]
+        else:
+            yield "index-passed-through", allargs.get("indices") is env["idx"]
+        if writes:
+            yield "value-passed-through", allargs.get("values") is env["val"]
+        if acc in self.TABLE:
+            ind, tol = self.TABLE[acc]
+        elif acc == "ix":
+            ind, tol = ("position" if case["own"] != "position" else "label"), None
+        else:
+            ind, tol = None, None      # a[...] / take / put defer to the array's own mode and the global option
+        yield "indexing-mode", allargs.get("indexing") == ind
+        yield "tolerance", allargs.get("tol") == tol
+        if not writes:
+            yield "result-returned", result["out"] is rec.token
+
+    def canaries(self, S, case, env, result):
+        yield "never-calls-anything", len(result["get"].calls) + len(result["put"].calls) == 0
+
+
+class _Opaque(object):
+    pass
+
+
+class ItemForwarding(Contract):
+    """_getitem and _setitem hand their (indices, axis, indexing, tol, keepdims) arguments to _get_indices
+    unchanged, so every spelling proved equivalent by GetIndices reaches reads and writes alike; an N-d
+    boolean mask is routed to compress / _setvalues_bool instead.  Loop-free plumbing: one execution per
+    configuration with opaque arguments is a complete case analysis.  [C01, C03]"""
+    target = "dimarray.core.bases:AbstractDimArray._getitem"
+    props = ("C01", "C03")
+
+    def cases(self, tier):
+        for op in ("get", "set", "set-copy"):
+            for axis in (0, "x1", 1, None):
+                yield {"name": "%s-axis_%s" % (op, axis), "op": op, "axis": axis}
+
+    def setup(self, S, case):
+        arr = S.da.DimArray(S.concrete_array([[1.0, 2.0], [3.0, 4.0]]),
+                            axes=[("x0", S.concrete_array([10.0, 20.0])), ("x1", S.concrete_array([1.0, 2.0]))])
+        return {"arr": arr, "idx": _Opaque(), "tol": _Opaque(), "indexing": "label", "val": 5.0}
+
+    def call(self, fn, env):
+        arr, case = env["arr"], env["case"]
+        cls = type(arr)
+        base = [k for k in cls.__mro__ if k.__name__ == "AbstractHasAxes"][0]
+        rec = _Recorder()
+        canned = (0, 1)
+        old = base._get_indices
+        base._get_indices = lambda self, *a, **k: (rec(self, *a, **k), canned)[1]
+        try:
+            if case["op"] == "get":
+                out = arr._getitem(env["idx"], axis=case["axis"], indexing=env["indexing"], tol=env["tol"], keepdims=False)
+            else:
+                out = arr._setitem(env["idx"], env["val"], axis=case["axis"], indexing=env["indexing"], tol=env["tol"],
+                                   inplace=case["op"] == "set")
+        finally:
+            base._get_indices = old
+        return {"out": out, "rec": rec}
+
+    def post(self, S, case, env, result):
+        rec = result["rec"]
+        yield "one-call", len(rec.calls) == 1
+        if len(rec.calls) != 1:
+            return
+        args, kw = rec.calls[0]
+        allargs = dict(kw)
+        if len(args) > 1:
+            allargs["indices"] = args[1]
+        yield "indices-forwarded", allargs.get("indices") is env["idx"]
+        yield "axis-forwarded", allargs.get("axis", 0) == case["axis"]
+        yield "indexing-forwarded", allargs.get("indexing") == env["indexing"]
+        yield "tol-forwarded", allargs.get("tol") is env["tol"]
+        target = args[0]
+        if case["op"] == "get":
+            yield "positions-used-for-the-read", result["out"] == 2.0       # canned positions (0, 1) -> cell [0, 1]
+            yield "on-self", target is env["arr"]
+        elif case["op"] == "set":
+            yield "positions-used-for-the-write", env["arr"].values[0, 1] == 5.0 and env["arr"].values[0, 0] == 1.0
+            yield "in-place-returns-none", result["out"] is None and target is env["arr"]
+        else:
+            out = result["out"]
+            yield "copy-written-original-untouched", out is not env["arr"] and out.values[0, 1] == 5.0 and env["arr"].values[0, 1] == 2.0
+            yield "positions-resolved-on-the-copy", target is out
+
+    def canaries(self, S, case, env, result):
+        yield "never-resolves-positions", len(result["rec"].calls) == 0
+
+
+class SetItem(Contract):
+    """AbstractDimArray._setitem (= a[idx] = v / put): with `pos` the position tuple _get_indices returns
+    for the same arguments (the very tuple a read uses), exactly the cells pos addresses change; the cell
+    addressed by selection coordinate k becomes the broadcast value at k; every other cell, all labels,
+    dimension names and metadata are untouched.  inplace=False leaves the receiver untouched and returns
+    a modified deep copy.  cast=True widens the dtype first (int <- float gives float) keeping all other
+    cells' values.  [C03]"""
+    target = "dimarray.core.bases:AbstractDimArray._setitem"
+    props = ("C03", "C15")
+    uses = (stub_of(GetIndices),)
+    inlined = ("_setvalues_ortho", "_setvalues_bool", "orthogonal_indexer", "canonicalize_indexer", "DimArray.copy (copy.deepcopy)",
+               "_maybe_cast_type (own contract: MaybeCastType)", "_is_boolean_index_nd")
+    max_paths = 600
+
+    def cases(self, tier):
+        import itertools
+        maxrank = 2 if tier == "quick" else 3
+        for rank in range(1, maxrank + 1):
+            for kinds in itertools.product(INDEX_KINDS, repeat=rank):
+                for mode in ("label", "position"):
+                    for value in ("scalar", "array"):
+                        if value == "array" and all(k in ("scalar",) for k in kinds):
+                            continue
+                        if value == "array" and mode == "label" and any(k.startswith("slice") for k in kinds):
+                            continue      # the selection's extent is not a function of the inputs alone; covered with scalar values
+                        for inplace in (True, False):
+                            if not inplace and (mode == "position" or rank > 1 and value == "array"):
+                                continue
+                            yield {"name": "r%d-%s-%s-%s-%s" % (rank, "+".join(kinds), mode, value, "inplace" if inplace else "copy"),
+                                   "rank": rank, "kinds": list(kinds), "spelling": "tuple", "indexing": mode,
+                                   "value": value, "inplace": inplace, "cast": False, "data_kind": "f"}
+        for kinds in (["scalar"], ["array"], ["mask"], ["slice"], ["full", "array"]):
+            for dk, vk in (("I", "f"), ("I", "i"), ("f", "i")):
+                yield {"name": "r%d-%s-cast-%s<-%s" % (len(kinds), "+".join(kinds), dk, vk), "rank": len(kinds), "kinds": kinds,
+                       "spelling": "tuple", "indexing": "label", "value": "scalar", "inplace": True, "cast": True,
+                       "data_kind": dk, "value_kind": vk}
+        for rank in (2, 3) if tier != "quick" else (2,):
+            yield {"name": "r%d-ndmask-scalar" % rank, "rank": rank, "kinds": ["ndmask"], "spelling": "ndmask", "indexing": "label",
+                   "value": "scalar", "inplace": True, "cast": False, "data_kind": "f"}
+
+    def bound_lengths(self, case):
+        names = ["lab%d.n" % d for d in range(case["rank"])]
+        names += ["ix%d.n" % d for d, k in enumerate(case["kinds"]) if k == "array"]
+        return names
+
+    def setup(self, S, case):
+        rank = case["rank"]
+        pos = case["indexing"] == "position"
+        if case["spelling"] == "ndmask":
+            arr, labels, data = make_dimarray(S, rank, data_kind=case["data_kind"])
+            mask = S.arraynd("mask", "b", tuple(S.n(L) for L in labels))
+            env = {"arr": arr, "labels": labels, "idx": [mask], "subs": [], "indices": mask, "kwargs": {}}
+        else:
+            arr, labels, data = make_dimarray(S, rank, index_orders(case["kinds"]) if not pos else None, data_kind=case["data_kind"])
+            idx, subs = [], []
+            for d, k in enumerate(case["kinds"]):
+                i, sc, se = make_index(S, k, labels[d], DIM_KINDS[d], d, position=pos)
+                if k == "array" and not pos:
+                    assume_order(S, i, "unique")       # a list index that names each label once (read-back is then well defined)
+                elif k == "array":
+                    S.assume(S.forall2(0, S.n(i), lambda a, b: S.at(i, a) != S.at(i, b)), "distinct positions")
+                    S.assume(S.forall(0, S.n(i), lambda a: S.at(i, a) >= 0), "non-negative positions")
+                idx.append(i)
+                subs.append((sc, se))
+            env = {"arr": arr, "labels": labels, "idx": idx, "subs": subs, "indices": tuple(idx), "kwargs": {"indexing": case["indexing"]}}
+        arr.attrs["units"] = "K"
+        env["data"] = arr.values
+        env["old"] = S.snapshot(arr.values)
+        vk = case.get("value_kind", "f")
+        if case["value"] == "scalar":
+            env["value"] = S.real("v") if vk == "f" else S.int("v")
+        else:
+            # a right-hand side with exactly the selection's shape (computed from the inputs)
+            shape = []
+            for d, k in enumerate(case["kinds"]):
+                n = S.n(labels[d])
+                if k == "full":
+                    shape.append(n)
+                elif k == "array":
+                    shape.append(S.n(env["idx"][d]))
+                elif k == "mask":
+                    shape.append(S.n(S.mask_positions(env["idx"][d])))
+                elif k.startswith("slice"):
+                    sl = env["idx"][d]
+                    shape.append(slice_count(S, n, sl.start, sl.stop, sl.step)[1])
+            env["value"] = S.arraynd("v", "f", tuple(shape))
+        return env
+
+    def _positions(self, S, env):
+        calls = S.calls("GetIndices")
+        if calls:
+            return calls[-1][3]
+        return env["arr"]._get_indices(env["indices"], **env["kwargs"])
+
+    def call(self, fn, env):
+        case = env["case"]
+        arr = env["arr"]
+        out = arr._setitem(env["indices"], env["value"], inplace=case["inplace"], cast=case["cast"], **env["kwargs"])
+        return out
+
+    def raises(self, S, case, env):
+        if case["spelling"] == "ndmask":
+            return {}
+        return GetItem().raises(S, case, env)
+
+    def post(self, S, case, env, result):
+        arr, labels, old = env["arr"], env["labels"], env["old"]
+        rank = case["rank"]
+        target = arr if case["inplace"] else result
+        if case["inplace"]:
+            yield "in-place-returns-none", result is None
+        else:
+            yield "copy-returned", S.land(S.is_dimarray(result), result is not arr, S.lnot(S.same_buffer(result.values, arr.values)))
+            yield "receiver-untouched", S.forall_nd(S.shape(old), lambda *p: S.at(arr.values, *p) == S.at(old, *p))
+        new = target.values
+        v = env["value"]
+        if case["spelling"] == "ndmask":
+            mask = env["idx"][0]
+            yield "masked-cells-set-others-kept", S.forall_nd(S.shape(old), lambda *p: S.at(new, *p) == S.ite(S.at(mask, *p), v, S.at(old, *p)))
+        else:
+            calls = S.calls("GetIndices")
+            pos = calls[-1][3] if calls else target._get_indices(env["indices"], **env["kwargs"])
+            sels = [selector(S, S.n(labels[d]), pos[d]) for d in range(rank)]
+            kept = [d for d in range(rank) if sels[d][0] is not None]
+
+            def src(ks):
+                it = iter(ks)
+                return [sels[d][1](next(it)) if d in kept else sels[d][1]() for d in range(rank)]
+            shape = [sels[d][0] for d in kept]
+            if case["value"] == "scalar":
+                yield "addressed-cells-hold-the-value", S.forall_nd(shape, lambda *ks: S.at(new, *src(ks)) == v)
+            else:
+                yield "addressed-cells-hold-the-value", S.forall_nd(shape, lambda *ks: S.at(new, *src(ks)) == S.at(v, *ks))
+
+            def addressed(p):
+                return S.land(*[sels[d][2](p[d]) for d in range(rank)])
+            yield "other-cells-untouched", S.forall_nd(S.shape(old), lambda *p: S.lor(S.at(new, *p) == S.at(old, *p), addressed(p)))
+        yield "shape-kept", tuple(S.shape(new)) == tuple(S.shape(old)) if S.mode == "nat" else len(S.shape(new)) == len(S.shape(old))
+        yield "labels-dims-metadata-untouched", S.land(
+            tuple(target.dims) == tuple("x%d" % d for d in range(rank)), dict(target.attrs) == {"units": "K"},
+            *[S.forall(0, S.n(labels[d]), lambda k, d=d: S.at(target.axes[d].values, k) == S.at(labels[d], k)) for d in range(rank)])
+        if case["cast"]:
+            exp = MaybeCastTable(case["data_kind"].lower(), case["value_kind"])
+            yield "dtype-widened-per-table", S.kind(new) == exp
+
+    def canaries(self, S, case, env, result):
+        target = env["arr"] if case["inplace"] else result
+        yield "nothing-written", S.forall_nd(S.shape(env["old"]), lambda *p: S.at(target.values, *p) == S.at(env["old"], *p))
+
+
+def MaybeCastTable(old, new):
+    return ix.MaybeCastType.expected(old, new)
